@@ -25,6 +25,7 @@ type Config struct {
 	QueryMs         int      // solver timeout per query
 	Preemptive      bool     // scheduling points at shared-memory accesses
 	PreemptSyncOnly bool     // pre-empt only at mutex and atomic operations, not at plain loads/stores
+	Race            bool     // happens-before data-race detection
 	SchedBound      int      // max scheduling decisions with >1 alternative per path
 	CrossCheck      []string // extra solvers for obligation queries
 	Trace           bool
@@ -117,20 +118,23 @@ type Exec struct {
 	envActions []*Closure
 
 	// results
-	Violations    []*Violation
-	vioKeys       map[string]bool
-	Stats         Stats
-	externGlobals map[*ssa.Global]Value
-	externTypes   map[string]types.Type
-	methodCache   map[string]*ssa.Function
-	harnessName   string
-	aborted       string // non-empty: whole run inconclusive
-	lastNow       *Term
-	mutexes       map[*Value]*mutexState
-	opaques       map[string]Value
-	initTemplate  map[*ssa.Global]Value // contents of globals after package initialisation
-	initHash      uint64
-	skipped       bool
+	Violations     []*Violation
+	vioKeys        map[string]bool
+	Stats          Stats
+	externGlobals  map[*ssa.Global]Value
+	externTypes    map[string]types.Type
+	methodCache    map[string]*ssa.Function
+	harnessName    string
+	aborted        string // non-empty: whole run inconclusive
+	lastNow        *Term
+	mutexes        map[*Value]*mutexState
+	opaques        map[string]Value
+	initTemplate   map[*ssa.Global]Value // contents of globals after package initialisation
+	initHash       uint64
+	skipped        bool
+	shadow         map[interface{}]*shadowCell
+	atomicVC       map[*Value]vclock
+	harnessFnCache map[*ssa.Function]bool
 	// ConcreteTrace: assertion outcomes and witnesses of the current path in concrete mode
 	ConcreteTrace []string
 	FirstTrace    []string
@@ -265,6 +269,8 @@ func (ex *Exec) runOnePath() {
 	ex.globals = map[*ssa.Global]*Value{}
 	ex.externGlobals = map[*ssa.Global]Value{}
 	ex.pc = nil
+	ex.shadow = nil
+	ex.atomicVC = nil
 	ex.completed = false
 	ex.ConcreteTrace = nil
 	ex.schedPos = 0
@@ -901,4 +907,17 @@ func (ex *Exec) Merge(o *Exec) {
 			ex.Violations = append(ex.Violations, v)
 		}
 	}
+}
+
+// fnChain names the innermost n non-harness functions of a task's stack, innermost first,
+// without line numbers (stable under unrelated edits; used in deadlock signatures).
+func (ex *Exec) fnChain(fr *frame, n int) string {
+	var out []string
+	for f := fr; f != nil && len(out) < n; f = f.caller {
+		if ex.isHarnessFn(f.fn) {
+			continue
+		}
+		out = append(out, f.fn.String())
+	}
+	return strings.Join(out, " < ")
 }
